@@ -10,7 +10,8 @@ from vf.core import Suite, coq_list, coq_Z
 from vf.gen import pick_weighted
 
 ID = "C04"
-THEOREMS = ["C04_smoke"]  # TEMP
+THEOREMS = ["C04_decode_git", "C04_canon_is_git", "C04_decode_long_mode_refuted", "C04_enc_dec", "C04_written_clean_partial",
+            "C04_written_clean_refuted", "C04_written_gitmodules_refuted", "C04_sort_is_git_order", "C04_never_refuses", "C04_never_refuses_refuted"]
 MODEL_FILES = ["TreeObj.v"]
 MODELLED = ("plumbing/object/tree.go: Tree.Decode (filemode.FromBytes, canonicalTreeMode), Tree.Encode, Tree.Validate, "
             "treeEntrySortName / TreeEntrySorter; internal/pathutil: ValidTreePath, IsDotGitName, IsHFSDot (UTF-8 view of "
@@ -347,6 +348,8 @@ class Main(Suite):
         if "rejects" in reason:
             if "['hasDotgit']" in reason and any(any(ch >= 0x80 for ch in n) and n[:1] == b"." for n in names):
                 return "hfs-dotgit-malformed-tail"
+            if "['gitmodulesSymlink']" in reason and any(x["mode"] == 0o120000 and b"\\" in bytes.fromhex(x["name"]) for x in c["entries"]):
+                return "gitmodules-symlink-after-backslash"
             return None
         if "refuses" in reason:
             if any(any(ch < 0x20 or ch == 0x7f for ch in n) for n in names):
